@@ -14,8 +14,8 @@ pub fn def() -> PropDef {
         job_level,
         run_job,
         replay,
-        rule: "configs: key-producing base forms {x, S-x, C-S-x, (multi lctl x), (unmod x), (unshift x), use-defsrc, _ over a lower layer} wrapped 0..2 times (quick: 0..1 at depth D, 2 at D-1) in {multi, tap-hold tap slot, tap-hold hold slot, tap-hold-press/release-timeout timeout slot, tap-dance, one-shot, fork left/right, switch case, v1 chord, v2 chord}, on 1-2 layers (subject key a; b in {plain b, lsft}; c = layer-while-held) with and without a defoverrides entry on the produced key; plus curated 3-layer configs with two layer keys; plus a chords-v2 family (a key taking part in two chords, one of them disabled on the base layer: with both participants of the active chord held, a repeat of either repeats the chord's output); plus an override-chain family (subject forms that can produce x or y, chained defoverrides whose outputs depend on held lctl / lsft, the modifiers being plain keys held together with the subject). Histories: ALL physically consistent histories of D steps over {press, release, repeat of a and b; press/release c; tick 1; tick 6} (repeats at every point, also while a tap-hold is pending). Safety oracle on EVERY repeat step: at most one output event, it is a repeat, and its key is in the OS-down set before the step. Completeness oracle at every leaf where exactly one non-layer physical key p is down: settle 45 ticks; if the OS-down set D is non-empty, a repeat of p must emit a repeat for a member of D, and (for output chords, whose modifiers are listed first) for the non-modifier member. The probe applies only while no layer key has been released since p's first press (layers activated later leave the action's layer active) (the property speaks of actions on the active layers).",
-        assumptions: &["D is attributed to p because every other held physical key is a pure layer key", "sequence mode is not entered in these configs (covered for safety by C02/C12)"],
+        rule: "configs: key-producing base forms {x, S-x, C-S-x, (multi lctl x), (unmod x), (unshift x), use-defsrc, _ over a lower layer} wrapped 0..2 times (quick: 0..1 at depth D, 2 at D-1) in {multi, tap-hold tap slot, tap-hold hold slot, tap-hold-press/release-timeout timeout slot, tap-dance, one-shot, fork left/right, switch case, v1 chord, v2 chord}, on 1-2 layers (subject key a; b in {plain b, lsft}; c = layer-while-held) with and without a defoverrides entry on the produced key; plus curated 3-layer configs with two layer keys; plus a chords-v2 family (a key taking part in two chords, one of them disabled on the base layer: with both participants of the active chord held, a repeat of either repeats the chord's output); plus a sequence-mode family (leader key + defseq in the three sequence-input modes: keys typed, held and repeated while a sequence is active, after it failed, timed out or completed); plus an override-chain family (subject forms that can produce x or y, chained defoverrides whose outputs depend on held lctl / lsft, the modifiers being plain keys held together with the subject). Histories: ALL physically consistent histories of D steps over {press, release, repeat of a and b; press/release c; tick 1; tick 6} (repeats at every point, also while a tap-hold is pending). Safety oracle on EVERY repeat step: at most one output event, it is a repeat, and its key is in the OS-down set before the step. Completeness oracle at every leaf where exactly one non-layer physical key p is down: settle 45 ticks; if the OS-down set D is non-empty, a repeat of p must emit a repeat for a member of D, and (for output chords, whose modifiers are listed first) for the non-modifier member. The probe applies only while no layer key has been released since p's first press (layers activated later leave the action's layer active) (the property speaks of actions on the active layers).",
+        assumptions: &["D is attributed to p because every other held physical key is a pure layer key", "in the sequence-mode family the leader key is treated like a layer key (it has no output of its own)"],
         required_level,
         min_outcomes: 3,
     }
@@ -168,6 +168,12 @@ fn jobs(tier: Tier) -> &'static Vec<Job> {
                 let cfg = format!("(defcfg concurrent-tap-hold yes process-unmapped-keys no)\n(defsrc a b c)\n(deflayer base a b c)\n(defchordsv2\n  {chords})\n");
                 v.push(Job { tag: format!("v2-two-chords/{tag}"), cfg, keys: vec!["a", "b", "c"], layer_keys: vec![], mod_keys: vec![], depth: d + 1, level: lvl });
             }
+            // sequence mode: c is the sequence leader (no output of its own); a and b are typed, held and
+            // repeated while the sequence is active, after it failed / timed out / completed
+            for mode in ["hidden-suppressed", "hidden-delay-type", "visible-backspaced"] {
+                let cfg = format!("(defcfg process-unmapped-keys no sequence-input-mode {mode} sequence-timeout 8)\n(defsrc a b c)\n(deflayer base a b sldr)\n(defvirtualkeys v1 x)\n(defseq v1 (a b))\n");
+                v.push(Job { tag: format!("sequence-mode/{mode}"), cfg, keys: vec!["a", "b", "c"], layer_keys: vec!["c"], mod_keys: vec![], depth: d + 1, level: lvl });
+            }
             // curated 3-layer configs with two layer keys
             for (tag, l0, l1, l2) in [
                 ("3L-diff", "x", "y", "z"),
@@ -206,6 +212,7 @@ fn check(j: &Job, hist: &[Ev], down: &[u16], first_new: usize, st: &mut Stats) -
     for (i, e) in hist.iter().enumerate() {
         let n0 = s.n_out();
         let before = crate::sim::os_down_set(&s.trace());
+        let seq_active_before = s.k.sequence_state.is_active();
         if let Err(m) = s.step(*e) {
             return Some((panic_signature(&m), m));
         }
@@ -225,7 +232,10 @@ fn check(j: &Job, hist: &[Ev], down: &[u16], first_new: usize, st: &mut Stats) -
                 };
                 st.outcome("repeat-emitted");
                 if !before.iter().any(|d| d == k) {
-                    return Some((format!("safety::repeat-for-key-that-is-up::{k}"), format!("repeat emitted for {k}, but the keys down at the OS are {before:?}")));
+                    // discriminated for the known-findings list: a key typed during a hidden sequence that has ENDED
+                    // since (sequence inactive at the repeat) versus a repeat forwarded while a sequence is active
+                    let ctx = if j.tag.starts_with("sequence-mode/hidden") { if seq_active_before { "/while-hidden-sequence-active" } else { "/after-hidden-sequence-ended" } } else { "" };
+                    return Some((format!("safety::repeat-for-key-that-is-up{ctx}::{k}"), format!("repeat emitted for {k}, but the keys down at the OS are {before:?}")));
                 }
             } else {
                 st.outcome("repeat-suppressed");
